@@ -224,7 +224,8 @@ def gen_case(draw):
             return {'mode': 'affix', 'cls': cls, 'is_global': glob, 'affixes': draw(st.one_of(st.lists(aff, min_size=1, max_size=3), st.lists(aff, min_size=1, max_size=3), st.lists(aff, min_size=17, max_size=130))),
                     'as_list': draw(st.booleans()), 'text': draw(sentence(ascii_only=not glob))}
         aff = dsl.literal_strategy(('meta',), 1, 4)
-        return {'mode': 'affix', 'cls': cls, 'is_global': glob, 'affixes': draw(st.lists(aff, min_size=1, max_size=2)),
+        singles = st.lists(st.sampled_from(list('-.,_^]\\[a+|')), min_size=2, max_size=4, unique=True)      # several one-character affixes
+        return {'mode': 'affix', 'cls': cls, 'is_global': glob, 'affixes': draw(st.one_of(st.lists(aff, min_size=1, max_size=2), singles, singles)),
                 'as_list': draw(st.booleans()), 'w1': draw(st.sampled_from(['ab', 'x', 'Z9'])), 'w2': draw(st.sampled_from(['yz', 'b', '_1']))}
     bad = st.sampled_from(sorted(BAD)).map(lambda k: ['bad', k])
     target = draw(st.sampled_from(['Numeral', 'Word']))
